@@ -110,7 +110,7 @@ def judge(acc, kind, url, headers, resp, rec):
 PRIMARY = ('/dash/live/bbb/hand_made.mpd', '/dash/vod/bbb/hand_made.mpd', '/dash/live/bbb/bbb_v7/3.m4v',
            '/dash/vod/bbb/bbb_v7_enc/3.m4v', '/patch/bbb/hand_made/1709294400', '/mps/live/testmps/hand_made.mpd',
            '/dash/live/synempty/hand_made.mpd', '/dash/vod/synunidx/hand_made.mpd', '/dash/live/synnoref/hand_made.mpd')
-QUICK_VALUES = ['', '-1', 'abc', '9' * 30, '503=', '1.5', '12:00:04Z', 'unknown-drm', 'all', 'ping', '1']
+QUICK_VALUES = ['', 'abc', '9' * 30, '503=', 'all', '1']
 
 
 def hostile_item(arg):
